@@ -101,7 +101,7 @@ def replay_numpy(req, tmp):
         lim = 2 ** 15 if dt == 'i2' else 2 ** 31
         hdr_in[f] = rng.integers(-lim, lim - 1, size=dims[:2]).astype(npdt)
     if hdr_in:
-        kw['trace_headers'] = {segyio.tracefield.TraceField(f): a for f, a in hdr_in.items()}
+        kw['trace_headers'] = {int(f): a for f, a in hdr_in.items()}      # segyio.TraceField.X attributes are plain ints
     il0, xl0 = m_.get('il0', 0), m_.get('xl0', 0)
     il_step, xl_step = opts.get('il_step', 1), opts.get('xl_step', 1)
     if opts.get('axes') == 'sym':
